@@ -276,8 +276,8 @@ def compileN : Nat → N → CM Unit
       patchToHere j1
       compileN f b
       patchToHere j2
-    | .in_ x c => do compileN f c; compileN f x; emit_ .containsOp 0
-    | .notin x c => do compileN f c; compileN f x; emit_ .containsOp 0; emit_ .unaryNot
+    | .in_ x c => do compileN f x; compileN f c; emit_ .swap 1; emit_ .containsOp 0
+    | .notin x c => do compileN f x; compileN f c; emit_ .swap 1; emit_ .containsOp 0; emit_ .unaryNot
     | .call fe args => do
       compileN f fe
       compileList f args
@@ -292,12 +292,13 @@ def compileN : Nat → N → CM Unit
     | .index e i => do compileN f e; compileN f i; emit_ .binarySubscr
     | .slice e lo hi => do
       compileN f e
-      match hi with
-      | .none_ => do emit_ .copy 0; emit_ .length
-      | hi => compileN f hi
       match lo with
       | .none_ => do emit_ .loadConst (← constant (.int 0))
       | lo => compileN f lo
+      match hi with
+      | .none_ => do emit_ .copy 1; emit_ .length
+      | hi => compileN f hi
+      emit_ .swap 1
       emit_ .slice
     | .list items => do compileList f items; emit_ .buildList items.toList.length
     | .tmpl parts => do
